@@ -7,7 +7,12 @@ Tie / sweep.  For every example envelope of the repository and for generated cal
   (2) every single edit of the serialised document (every leaf value replaced type-preserving and
       type-changing, every member removed, every absent schema-defined member added with a
       schema-conforming value, an unknown member added, every array reordered / duplicated /
-      truncated), applied to the TEXT, then gobl.Parse + Validate.
+      truncated; every extension member set to every other code its registered definition lists: leaf-code-list),
+      applied to the TEXT, then gobl.Parse + Validate.  The parsed document is serialised BEFORE Validate is called
+      (and once more afterwards: validate_rewrote_the_parsed_document);
+  (3) per source one sequence of validate requests to ONE long-lived `gobl serve` process (POST /bulk, one request per
+      POST): original, edited copies with the same header, a re-encoding, the same texts again, in both orders; every
+      answer must be what the library said about that text on its own (request_sequences).
 Oracle P (judged here, from the implementation's observations only):
       evident      = unmarshal error, or any validation error, or the digest error
       no effect    = validates AND the parsed document, serialised again by Go, has the same canonical
@@ -505,9 +510,10 @@ class Obs:
         self.same_calc = bool(v[6])
         self.head = tuple(x.decode() for x in v[7]) if v[7] else ("", "")
         self.sha, self.sha_calc = v[8].decode(), v[9].decode()
-        self.detail = len(v) > 10
+        self.rewrote = bool(v[10])      # Validate changed the document it was asked about (serialised before / after)
+        self.detail = len(v) > 11
         if self.detail:
-            self.canon, self.canon_calc, self.raw = v[10], v[11], v[12]
+            self.canon, self.canon_calc, self.raw = v[11], v[12], v[13]
 
 
 EVIDENT = "evident"
@@ -596,6 +602,203 @@ def contains(big, small, path="doc"):
 
 
 # ----------------------------------------------------------------------------------------------
+# the long-lived entry point: `gobl serve`, action "validate" of POST /bulk (internal/cli.Validate; `gobl bulk` itself is
+# not a registered command).  One request per POST, the next one sent after the answer: the order is ours.
+# ----------------------------------------------------------------------------------------------
+class ServeSession:
+    def __init__(self):
+        import socket, tempfile
+        self.gobl = os.path.join(BIN, "gobl")
+        self.tmpd = tempfile.mkdtemp(prefix="c08serve", dir=WORK)
+        key = os.path.join(self.tmpd, "key.jwk")
+        subprocess.run([self.gobl, "keygen", key], stdout=subprocess.PIPE, stderr=subprocess.PIPE, env=GOENV)
+        s0 = socket.socket()
+        s0.bind(("127.0.0.1", 0))
+        self.port = s0.getsockname()[1]
+        s0.close()
+        self.log = open(os.path.join(self.tmpd, "serve.log"), "w")
+        self.proc = subprocess.Popen([self.gobl, "serve", "-p", str(self.port), "-k", key], stdout=self.log, stderr=self.log, env=GOENV)
+        self.up = False
+        for _ in range(200):
+            time.sleep(0.05)
+            if self.proc.poll() is not None:
+                break
+            try:
+                h = self.connect()
+                h.request("GET", "/")
+                r = h.getresponse()
+                r.read()
+                h.close()
+                if r.status == 200:
+                    self.up = True
+                    break
+            except OSError:
+                pass
+
+    def connect(self):
+        import http.client
+        return http.client.HTTPConnection("127.0.0.1", self.port, timeout=60)
+
+    def validate(self, h, text):
+        """verdict of one validate request: 'ok', the error key ('digest', 'validation', ...), 'error' (no key) or 'no-answer'"""
+        import base64
+        body = json.dumps({"action": "validate", "req_id": "r", "payload": {"data": base64.b64encode(text.encode()).decode()}}) + "\n"
+        h.request("POST", "/bulk", body=body.encode(), headers={"Content-Type": "application/json"})
+        r = h.getresponse()
+        data = r.read().decode("utf-8", "replace")
+        for l in data.split("\n"):
+            try:
+                j = json.loads(l)
+            except ValueError:
+                continue
+            if isinstance(j, dict) and j.get("req_id") == "r":
+                if j.get("error"):
+                    return j["error"].get("key") or "error"
+                return "ok" if (j.get("payload") or {}).get("ok") is True else "error"
+        return "no-answer"
+
+    def close(self):
+        try:
+            self.proc.kill()
+            self.proc.wait(timeout=10)
+        except Exception:
+            pass
+        self.log.close()
+        sh("rm -rf " + self.tmpd)
+
+
+def fresh_verdict(text):
+    """the same request as the first and only one of a new process"""
+    s = ServeSession()
+    try:
+        if not s.up:
+            return "no-server"
+        h = s.connect()
+        v = s.validate(h, text)
+        h.close()
+        return v
+    except OSError:
+        return "no-answer"
+    finally:
+        s.close()
+
+
+def request_sequences(c, good, seq_pool, rng, quick):
+    """Per source one sequence of validate requests to ONE server process: the untouched envelope, edited copies of it with the
+    same header (edits the one-shot sweep above saw refused with the digest error / a validation error, and edits without effect),
+    a re-encoding, the same texts again - half of the sequences open with the original, half with an edited copy.  Expected of
+    every answer: what the library said about that text on its own (oracle P: an edited document is refused, with the digest
+    error where the library names the digest; the original, its re-encoding and the no-effect spellings are accepted) -
+    whatever was asked of the process before."""
+    import threading
+    ok_, out_ = build_cli()
+    if not ok_:
+        c.report("cmd/gobl no longer builds: " + out_[-800:], {"correspondence": "go build ./cmd/gobl"}, no_input=True)
+        return
+    idx = list(range(len(good)))
+    if quick:
+        # 80 sources: one per (document type, regime, add-ons) first (seeded order), then a seeded sample of the rest
+        rng.shuffle(idx)
+        first, rest, seen = [], [], set()
+        for si in idx:
+            d = good[si][2]["doc"]
+            k = (d.get("$schema"), d.get("$regime"), tuple(d.get("$addons") or [])) if isinstance(d, dict) else None
+            (rest if k in seen else first).append(si)
+            seen.add(k)
+        idx = (first + rest)[:80]
+    seqs = []
+    for si in idx:
+        name, text, env, o = good[si]
+        pool = seq_pool.get(si, {})
+
+        def pick(g, n):
+            l = pool.get(g, [])
+            return [(g, e, dumps(apply_edit(env, e[2], e[3], e[4]))) for e in (rng.sample(l, n) if len(l) > n else list(l))]
+        dg, vl, ne = pick("digest", 2), pick("validation", 1), pick("noeffect", 1)
+        orig = ("original", None, text)
+        steps = [orig] + dg[:1] + [("re-encoding", None, reencode(env, rng, False))] + (vl if len(seqs) % 2 else ne) + dg[1:] + dg[:1] + [orig]
+        if dg and rng.random() < 0.5:
+            steps = dg[:1] + steps          # the edited copy is the first thing the process hears of this envelope
+        seqs.append((si, steps))
+    c.cov["request_sequences"] = {"sources": len(seqs), "requests": sum(len(s) for _, s in seqs),
+                                  "with_a_digest_edit": sum(1 for _, s in seqs if any(g == "digest" for g, _, _ in s))}
+    if not any(g == "digest" for _, s in seqs for g, _, _ in s):
+        c.report("stream request-sequence is vacuous: no sequence contains an edit the library refuses with the digest error", {"machinery": "request-sequence"}, no_input=True)
+        return
+    srv = ServeSession()
+    if not srv.up:
+        srv.close()
+        c.report("gobl serve did not come up: the long-lived entry point cannot be observed", {"machinery": "serve"}, no_input=True)
+        return
+    results = {}
+    lock = threading.Lock()
+    work = list(seqs)
+
+    def worker():
+        h = srv.connect()
+        while True:
+            with lock:
+                if not work:
+                    break
+                si, steps = work.pop()
+            got = []
+            for g, e, t in steps:
+                try:
+                    got.append(srv.validate(h, t))
+                except OSError:
+                    got.append("no-answer")
+                    try:
+                        h.close()
+                    except OSError:
+                        pass
+                    h = srv.connect()
+            results[si] = got
+        h.close()
+    ths = [threading.Thread(target=worker) for _ in range(4)]
+    for t in ths:
+        t.start()
+    for t in ths:
+        t.join()
+    alive = srv.proc.poll() is None
+    srv.close()
+    nrep = 0
+    want = {"original": "ok", "re-encoding": "ok", "noeffect": "ok", "digest": "digest", "validation": "validation"}
+    diffs = {}
+    for si, steps in seqs:
+        name, text, env, o = good[si]
+        got = results.get(si, [])
+        for n, ((g, e, t), v) in enumerate(zip(steps, got)):
+            c.count("request-sequence:" + g, 1, (name, n, hashlib.sha1(t.encode()).hexdigest()))
+            if v == want[g]:
+                continue
+            edited = g in ("digest", "validation")
+            if edited and v not in ("ok", "no-answer"):
+                # refused, under another error key than the library's (the command line reads its input through YAML): counted
+                diffs[(want[g], v)] = diffs.get((want[g], v), 0) + 1
+                continue
+            alone = fresh_verdict(t) if nrep < 3 else "not asked"
+            if edited:
+                what = ("request %d of a sequence to one `gobl serve` process: an edited copy of %s (%s at %s) is answered `%s`; the library refuses the "
+                        "same text with `%s`, a fresh process answers `%s`" % (n + 1, name, e[1], "/".join(str(x) for x in e[3]), v, want[g], alone))
+                clause = "if the logical content is changed without recalculating, validation fails with a digest error"
+            else:
+                what = ("request %d of a sequence to one `gobl serve` process: %s of %s is answered `%s`; the library validates the same text, "
+                        "a fresh process answers `%s`" % (n + 1, g if g != "noeffect" else "a spelling without effect (%s)" % e[1], name, v, alone))
+                clause = "a calculated envelope validates, and continues to validate after being re-serialised"
+            nrep += 1
+            if nrep <= 3:
+                c.report(what, {"source": name, "request_sequence": [x[2] for x in steps[:n + 1]],
+                                "answers": got[:n + 1], "expected_of_the_last": want[g], "fresh_process_answers": alone,
+                                "edit": None if e is None else {"kind": e[1], "op": e[2], "path": e[3], "value": e[4]},
+                                "clause": clause,
+                                "rerun": "gobl serve; POST /bulk {\"action\":\"validate\",\"payload\":{\"data\":base64(text)}} for each text of request_sequence, in order, one POST each"})
+            break
+    c.cov["request_sequences"]["refused_under_another_key(library,serve)"] = {"%s->%s" % k: n for k, n in diffs.items()}
+    c.cov["request_sequences"]["deviations"] = nrep
+    if not alive:
+        c.report("gobl serve died while answering validate requests", {"machinery": "serve", "log": "work/c08serve*/serve.log"}, no_input=True)
+
+
 def example_files():
     fs = sorted(glob.glob(os.path.join(REPO, "**", "out", "*.json"), recursive=True))
     return [f for f in fs if "/node_modules/" not in f]
@@ -827,6 +1030,42 @@ def run(c):
                     all_edits.append((si, "leaf-literal", "set", path, lit, "derived-regime" if path == ["doc", "$regime"] else None))
                     nlit += 1
     c.cov["literal_edits"] = {"pool": len(pool), "positions": len(seen_gp), "edits": nlit}
+    # code-list edits: every extension member (any `ext` object of any document type) gets every OTHER code its registered
+    # definition lists (tax.ExtensionForKey, asked of the implementation: regimes and add-ons alike).  A valid value in the
+    # place of another valid value is the edit a rule that derives / repairs / defaults the member is most likely to absorb;
+    # a random change of a character (leaf-same-type) almost never produces one.
+    ext_leaves = []
+    for si, (name, text, env, o) in enumerate(good):
+        for path, v in string_leaves(env["doc"], ["doc"]):
+            if len(path) >= 2 and path[-2] == "ext" and isinstance(path[-1], str):
+                ext_leaves.append((si, path, v))
+    ext_keys = sorted({p[-1] for _, p, _ in ext_leaves})
+    ext_values = {}
+    if ext_keys:
+        ev = parse_wire(run_go(["c08 extvalues " + w(ext_keys)], shards=1)[0])
+        if ev and isinstance(ev[0], list) and len(ev[0]) == len(ext_keys):
+            ext_values = {k: [x.decode() for x in vals] for k, vals in zip(ext_keys, ev[0])}
+        else:
+            c.report("harness op `c08 extvalues` failed: %r" % (ev,), {"machinery": "extvalues"}, no_input=True)
+    ncl, cl_seen = 0, {}
+    cl_cap = 6 if quick else 10 ** 6        # quick: at most 6 instances of the same (document type, position, key, old, new)
+    for si, path, v in ext_leaves:
+        alts = [x for x in ext_values.get(path[-1], []) if x != v]
+        if quick and len(alts) > 4:
+            alts = rng.sample(alts, 4)
+        dtype = good[si][2]["doc"].get("$schema", "") if isinstance(good[si][2]["doc"], dict) else ""
+        gp = tuple("*" if isinstance(x, int) else x for x in path)
+        for x in alts:
+            kx = (dtype, gp, v, x)
+            if cl_seen.get(kx, 0) >= cl_cap:
+                continue
+            cl_seen[kx] = cl_seen.get(kx, 0) + 1
+            all_edits.append((si, "leaf-code-list", "set", path, x, None))
+            ncl += 1
+    c.cov["code_list_edits"] = {"extension_members": len(ext_leaves), "keys": len(ext_keys),
+                                "keys_with_listed_codes": sum(1 for k in ext_keys if ext_values.get(k)), "edits": ncl}
+    if ext_leaves and not ncl:
+        c.report("stream leaf-code-list is vacuous: no extension member of any source has another listed code", {"machinery": "code-list"}, no_input=True)
     per_source = {}
     for e in all_edits:
         per_source.setdefault(e[0], []).append(e)
@@ -847,6 +1086,8 @@ def run(c):
     outs = run_go(lines, shards=16)
     log("edits run", round(time.time() - T0, 1))
     reported = {}
+    seq_pool = {}        # source index -> library verdict group -> judged edits (for the request sequences below)
+    rewrote = 0
     printer_checked = 0
     for (si, chunk, texts), ol in zip(meta, outs):
         name, text, env, orig = good[si]
@@ -857,7 +1098,12 @@ def run(c):
             cls, bad = judge_edit(o, orig, kind, note)
             classes[cls] = classes.get(cls, 0) + 1
             kinds[kind] = kinds.get(kind, 0) + 1
+            grp = {"evident:digest": "digest", "evident:validation": "validation"}.get(cls, "noeffect" if cls.startswith("no-effect") else None)
+            if grp and kind != "leaf-literal":
+                seq_pool.setdefault(si, {}).setdefault(grp, []).append(e)
             c.count("edit:" + kind, 1, (name, op, tuple(path), dumps(payload)))
+            if o.rewrote:
+                rewrote += 1
             ccls, cbad = judge_calc(o, orig)
             calc_classes[ccls] = calc_classes.get(ccls, 0) + 1
             for b, clause in ((bad, "if the logical content is changed without recalculating, validation fails with a digest error"),
@@ -867,7 +1113,7 @@ def run(c):
                     c.report("%s: %s at %s of %s" % (b, kind, "/".join(str(p) for p in path), name),
                              {"source": name, "original_envelope": text, "edit": {"kind": kind, "op": op, "path": path, "value": payload},
                               "edited_envelope": t, "observed": {"parse": o.parse, "validate": o.validate, "same_parsed_content": o.same,
-                                                                 "recalculated_digest": o.new, "original_digest": orig.head},
+                                                                 "validate_rewrote_the_document": o.rewrote, "recalculated_digest": o.new, "original_digest": orig.head},
                               "clause": clause, "rerun": "echo 'c08 sweep x<original hex> ( x<edited hex> ) 0' | bin/vharness"})
                 elif b:
                     c.violations_suppressed = getattr(c, "violations_suppressed", 0) + 1
@@ -887,9 +1133,14 @@ def run(c):
                 except HasFloat:
                     pass
     c.cov["independent_printer_checked"] = printer_checked
+    c.cov["validate_rewrote_the_parsed_document"] = rewrote
     c.cov["violations_not_listed_individually"] = getattr(c, "violations_suppressed", 0)
     if len(all_edits) and not (classes.get("evident:digest", 0) and classes.get("evident:unmarshal", 0) and classes.get("evident:validation", 0)):
         c.report("sweep is vacuous: an expected verdict class never occurred: %r" % classes, {"machinery": "classes"}, no_input=True)
+
+    # ---- (3) sequences of validate requests inside one long-lived process ----
+    request_sequences(c, good, seq_pool, rng, quick)
+    log("request sequences done", round(time.time() - T0, 1))
 
     # ---- correspondence with the model ----
     log("edits judged; model lines", len(mlines), round(time.time() - T0, 1))
@@ -971,6 +1222,17 @@ def replay(path):
         o = Obs(res[1][0])
         print("edit:", json.dumps(r.get("edit")))
         print("implementation: parse=%s validate=%s same-parsed-content=%s recalculated=%s digest %s" % (o.parse, o.validate, o.same, o.calc, o.new))
+    elif "request_sequence" in r:
+        build_cli()
+        srv = ServeSession()
+        try:
+            h = srv.connect()
+            for i, t in enumerate(r["request_sequence"]):
+                print("request %d: %s%s" % (i + 1, srv.validate(h, t), "   (expected: %s)" % r["expected_of_the_last"] if i + 1 == len(r["request_sequence"]) else ""))
+            h.close()
+        finally:
+            srv.close()
+        print("the last text as the only request of a fresh process:", fresh_verdict(r["request_sequence"][-1]))
     elif "envelope" in r:
         out = run_go(["c08 orig " + w(r["envelope"])], shards=1)[0]
         o = Obs(parse_wire(out)[0])
